@@ -1802,8 +1802,14 @@ class Lbfgsb(Family):
                                   ("maxfun", [50, 15000]), ("callback", [1])):
                     if rng.random() < 0.35:
                         opts[key] = rng.choice(vals)
+            via = rng.choice(["gcp_opt", "solve"])
+            if via == "solve" and rng.random() < 0.5:
+                # a start whose weights are not all one (direct solve() only: gcp_opt normalises its guess to unit weights);
+                # the objective of start and result is recomputed WITH the weights (seed C13w)
+                for q in probs:
+                    q["weights"] = [rng.choice(["3", "1/4", "2", "1/2", "5/4", "6"]) for _ in range(q["rank"])]
             out.append({"service": rng.choice(["real", "real", "real", "start", "backtrack", "overshoot"]), "opts": opts,
-                        "via": rng.choice(["gcp_opt", "solve"]), "order": order, "problems": probs})
+                        "via": via, "order": order, "problems": probs})
         # sweep with the real optimiser: line-search budget x cut-offs x starts (an overshooting start makes a
         # small maxls abandon a line search: the last evaluated point is then not the returned solution)
         k = 0
@@ -1959,7 +1965,9 @@ class Lbfgsb(Family):
         sizes = [gen.numel(p["shape"]) for p in c["problems"]]
         tags = [c["service"], c["via"], f"solves{len(c['problems'])}", "order=" + c.get("order", "legacy"),
                 "opts=" + ("default" if not c.get("opts") else "+".join(sorted(c["opts"]))),
-                "sizes-differ" if len(set(sizes)) > 1 else "sizes-equal"] + sorted({p["objective"] for p in c["problems"]})
+                "sizes-differ" if len(set(sizes)) > 1 else "sizes-equal",
+                "start-weights-nonunit" if any(p.get("weights") for p in c["problems"]) else "start-weights-unit"] \
+            + sorted({p["objective"] for p in c["problems"]})
         for k, r in enumerate(shared):
             if "ok" not in r:
                 return Verdict("violation", f"solve #{k + 1} raised: {r.get('exc')}: {r.get('msg')}", r, None, None, tags)
